@@ -544,7 +544,11 @@ func (hm *HandshakeManager) unlockedDeleteHostInfo(hostinfo *HostInfo) {
 		hm.vpnIps = map[netip.Addr]*HandshakeHostInfo{}
 	}
 
-	delete(hm.indexes, hostinfo.localIndexId)
+	// Only release the index if this hostinfo still owns it: a hostinfo of the main hostmap (handleRecvError)
+	// or one that was already removed must not free an index that was handed out again.
+	if cur, ok := hm.indexes[hostinfo.localIndexId]; ok && cur.hostinfo == hostinfo {
+		delete(hm.indexes, hostinfo.localIndexId)
+	}
 	if len(hm.indexes) == 0 {
 		hm.indexes = map[uint32]*HandshakeHostInfo{}
 	}
